@@ -51,6 +51,8 @@ def check(cx):
         'R13.6 every relay/reply template places client-chosen free text last, introduced by " :"',
         'R13.7 the relay serialiser prefixes the last parameter with " :" when it is empty or contains a space, tab or colon, and joins earlier parameters by single spaces',
         'R13.10 the name validators accept only what can travel as a middle parameter: validate_username / validate_channel return Ok only for non-empty names without a space, comma or colon (a trailing parameter can carry all of these into a name)',
+        'R13.11 every Reply variant is rendered with the numeric in its name, the client as first parameter, and every one of its fields (100 variants)',
+        'R13.12 every reply is addressed to the requesting connection: the client parameter of every Reply literal is client_name() of the connection\'s own state, which is its nick, else its user name, else its host',
         'R13.9 offset coordinates in the parser: the length of a piece found inside the sub-slice base[a..] is used as an offset into base only with a added',
         'R13.8 the trailing parameter is split off at " :" (accepted idiom); a split at a bare \':\' necessarily misreads "X a:b c"',
     ]
@@ -327,6 +329,66 @@ def check(cx):
             if not ok:
                 r6.violation('Reply::fmt|%s|%s' % (variant, fld), 'the free-text field %s of %s is not the last parameter introduced by " :"'
                              % (fld, variant), loc=cx.loc(e.node), template=str(pieces))
+    # ---------------------------------------------------------------- R13.11 numeric / client / field coverage of every reply
+    r11 = cx.rule('R13.11', 'reply templates: numeric, client, all fields', floor=100, kind='table-agreement')
+    import re as _re
+    for vdef in prog.adts['reply::Reply']['variants']:
+        v = vdef['name']
+        mine = [e for e in fmts if any(a == ('is', P('self'), v) for a in atoms(e.pc))]
+        num = _re.search(r'(\d{3})$', v)
+        r11.instance('Reply::%s' % v)
+        if not mine or not num:
+            r11.violation('Reply::fmt|%s|no-template' % v, 'reply %s has no template / no numeric in its name' % v, loc=frf)
+            continue
+        used = set()
+        for e in mine:
+            pieces, args = e.data['pieces'], e.data['args']
+            head = pieces[0] if isinstance(pieces[0], str) else ''
+            ph = [x for x in pieces if not isinstance(x, str)]
+            first = args[ph[0][1]] if ph else None
+            if not head.startswith(num.group(1) + ' '):
+                r11.violation('Reply::fmt|%s|numeric' % v, 'reply %s is sent with the numeric %r' % (v, head[:4]), loc=cx.loc(e.node))
+            if first != ('vfield', P('self'), v, 'client'):
+                r11.violation('Reply::fmt|%s|client' % v, 'the first parameter of reply %s is not the client' % v, loc=cx.loc(e.node))
+            for a in args:
+                for t in subterms(a):
+                    if isinstance(t, tuple) and len(t) == 4 and t[0] == 'vfield' and t[2] == v:
+                        used.add(t[3])
+        # fields that only steer the template (tested in its path condition) count as used
+        for e in mine:
+            for a in atoms(e.pc):
+                for t in subterms(a):
+                    if isinstance(t, tuple) and len(t) == 4 and t[0] == 'vfield' and t[2] == v:
+                        used.add(t[3])
+        missing = [f['name'] for f in vdef['fields'] if f['name'] not in used]
+        if missing:
+            r11.violation('Reply::fmt|%s|unused-field|%s' % (v, ','.join(missing)), 'reply %s never shows its field(s) %s' % (v, ', '.join(missing)),
+                          loc=frf)
+
+    # ---------------------------------------------------------------- R13.12 the client parameter
+    r12 = cx.rule('R13.12', 'client parameter of every reply', floor=120, kind='provenance')
+    from .C03 import cx_census as _census
+    want_client = ('call', cx.fn('client_name', 'ConnUserState'), USTATE)
+    for fn_, e in _census(cx):
+        if e.kind == 'adt' and e.data['adt'].endswith('reply::Reply'):
+            fl = e.data['fields']
+            fl = dict(fl) if not isinstance(fl, dict) else fl
+            r12.instance('%s: %s' % (short_fn(fn_), e.data['variant']))
+            if fl.get('client') != want_client:
+                r12.violation('%s|reply-client|%s' % (short_fn(fn_.replace('::{closure#0}', '')), e.data['variant']), 'reply %s is addressed to %s, not to '
+                              'the requesting connection' % (e.data['variant'], show_term(fl.get('client'))[:60]), loc=cx.loc(e.node))
+    MEu = P('self')
+    wcn = cx.walk(cx.fn('client_name', 'ConnUserState'), args=[MEu], key='c13cn')
+    from .C03 import cases as _cases
+    leaves = _cases(wcn.retval)
+    r12.instance('client_name = nick, else user name, else host')
+    nick_s, name_s = Atom(('is', field(MEu, 'nick'), 'Some')), Atom(('is', field(MEu, 'name'), 'Some'))
+    want_leaves = [(nick_s, ('some_of', field(MEu, 'nick'))), (And(Not(nick_s), name_s), ('some_of', field(MEu, 'name'))),
+                   (And(Not(nick_s), Not(name_s)), field(MEu, 'hostname'))]
+    okcn = len(leaves) == 3 and all(any(l == wl and equivalent(c, wc)[0] for c, l in leaves) for wc, wl in want_leaves)
+    if not okcn:
+        r12.violation('ConnUserState::client_name|body', 'client_name is not (nick, else user name, else host)', loc=cx.fn('client_name', 'ConnUserState'))
+
     relay_templates = [('process_part', 'PART '), ('process_kick', 'KICK '), ('process_privmsg_notice', 'PRIVMSG '), ('process_privmsg_notice', 'NOTICE ')]
     for h, head in relay_templates:
         wh = cx.walk(cx.fn(h), key='census')
